@@ -924,87 +924,51 @@ func (f *Field) SetBit(rowID, colID uint64, t *time.Time) (changed bool, err err
 
 // ClearBit clears a bit within the field.
 func (f *Field) ClearBit(rowID, colID uint64) (changed bool, err error) {
-	viewName := viewStandard
-
-	// Retrieve view. Exit if it doesn't exist.
-	view, present := f.viewMap[viewName]
-	if !present {
-		return changed, errors.Wrap(err, "clearing missing view")
-
+	// Clear non-time bit, if the field has a standard view.
+	if view := f.view(viewStandard); view != nil {
+		if v, err := view.clearBit(rowID, colID); err != nil {
+			return changed, errors.Wrap(err, "clearing on view")
+		} else if v {
+			changed = true
+		}
 	}
 
-	// Clear non-time bit.
-	if v, err := view.clearBit(rowID, colID); err != nil {
-		return changed, errors.Wrap(err, "clearing on view")
-	} else if v {
-		changed = v
-	}
-	if len(f.viewMap) == 1 { // assuming no time views
-		return changed, nil
-	}
-	lastViewNameSize := 0
-	level := 0
-	skipAbove := maxInt
+	// Clear the bit in every time view. A view is only skipped when a coarser
+	// view covering it (its name is a prefix, e.g. standard_2018 covers
+	// standard_201801) did not contain the bit: SetBit always writes a
+	// timestamped bit to every view of the quantum, so a finer view cannot
+	// contain a bit its coarser view lacks. The views are visited coarse to
+	// fine (plain name order is a pre-order of the year/month/day/hour tree).
+	skipPrefix := ""
 	for _, view := range f.allTimeViewsSortedByQuantum() {
-		if lastViewNameSize < len(view.name) {
-			level++
-		} else if lastViewNameSize > len(view.name) {
-			level--
+		if skipPrefix != "" && strings.HasPrefix(view.name, skipPrefix) {
+			continue
 		}
-		if level < skipAbove {
-			if changed, err = view.clearBit(rowID, colID); err != nil {
-				return changed, errors.Wrapf(err, "clearing on view %s", view.name)
-			}
-			if !changed {
-				skipAbove = level + 1
-			} else {
-				skipAbove = maxInt
-			}
+		skipPrefix = ""
+		c, err := view.clearBit(rowID, colID)
+		if err != nil {
+			return changed, errors.Wrapf(err, "clearing on view %s", view.name)
 		}
-		lastViewNameSize = len(view.name)
+		if c {
+			changed = true
+		} else {
+			skipPrefix = view.name
+		}
 	}
 
 	return changed, nil
 }
 
-func groupCompare(a, b string, offset int) (lt, eq bool) {
-	if len(a) > offset {
-		a = a[:offset]
-	}
-	if len(b) > offset {
-		b = b[:offset]
-	}
-	v := strings.Compare(a, b)
-	return v < 0, v == 0
-}
-
+// allTimeViewsSortedByQuantum returns the time views of the field ordered by
+// name, which lists every view before the finer views it covers.
 func (f *Field) allTimeViewsSortedByQuantum() (me []*view) {
-	me = make([]*view, len(f.viewMap))
 	prefix := viewStandard + "_"
-	offset := len(viewStandard) + 1
-	i := 0
-	for _, v := range f.viewMap {
-		if len(v.name) > offset && strings.Compare(v.name[:offset], prefix) == 0 { // skip non-time views
-			me[i] = v
-			i++
+	for _, v := range f.views() {
+		if strings.HasPrefix(v.name, prefix) { // skip non-time views
+			me = append(me, v)
 		}
 	}
-	me = me[:i]
-	year := strings.Index(me[0].name, "_") + 4
-	month := year + 2
-	day := month + 2
-	sort.Slice(me, func(i, j int) (lt bool) {
-		var eq bool
-		// group by quantum from year to hour
-		if lt, eq = groupCompare(me[i].name, me[j].name, year); eq {
-			if lt, eq = groupCompare(me[i].name, me[j].name, month); eq {
-				if lt, eq = groupCompare(me[i].name, me[j].name, day); eq {
-					lt = strings.Compare(me[i].name, me[j].name) > 0
-				}
-			}
-		}
-		return lt
-	})
+	sort.Slice(me, func(i, j int) bool { return me[i].name < me[j].name })
 	return me
 }
 
